@@ -118,6 +118,21 @@ macro_rules! with_map_model {
 }
 pub(crate) use with_map_model;
 
+/// `with_map_model!` plus: the last drop of an `Arc` leaks the shared value instead of running its
+/// destructor (see `tokio::maps::arc_drop_slow_leak`).  This keeps the drop glue of everything
+/// reachable from a port's sender/receiver objects (allocator sets, the handle storage map, credit
+/// pools) out of the symbolic execution; harnesses whose property depends on such a destructor
+/// (wake-ups caused by dropping the dispatcher) use `with_map_model!` instead.
+macro_rules! with_lean_model {
+    ($($item:tt)*) => {
+        crate::verif_harness::util::with_map_model! {
+            #[kani::stub(std::sync::Arc::drop_slow, tokio::maps::arc_drop_slow_leak)]
+            $($item)*
+        }
+    };
+}
+pub(crate) use with_lean_model;
+
 /// Stub for `<PortNumber as Drop>::drop` in harnesses that hold no port number: keeps the
 /// (unreachable but symbolically explored) destructor paths of queued events cheap.
 pub fn noop_port_number_drop(_p: &mut crate::chmux::PortNumber) {}
